@@ -20,10 +20,15 @@ def c06(tier):
 def c16(tier):
     n = 3 if tier == "quick" else 5
     jobs = [Job("h_c16::diff_roundtrip", p, {"hash_order": "fixed"}, budget_s=1500, validate=(30 if tier == "quick" else 50)) for p in pairs(n)]
+    chains = [(7, 3, 0), (7, 3, 1)] if tier == "quick" else [(7, 3, 0), (7, 3, 1), (12, 3, 0), (7, 4, 1)]
+    for c in chains:
+        jobs.append(Job("h_c04::array_chain", c, dict(S2), budget_s=3000, validate=30))
     return dict(
         jobs=jobs,
-        bounds={"len_old": "0..%d" % n, "len_new": "0..%d" % n, "elements": "abstract atoms, repetitions allowed (all equality patterns)"},
-        assumptions=["elements are JSON numbers"],
+        bounds={"len_old": "0..%d" % n, "len_new": "0..%d" % n, "elements": "abstract atoms, repetitions allowed (all equality patterns)",
+                "melda-level chains [element orders, chain length, commit after each version]": [list(c) for c in chains],
+                "cache capacities": "MELDA_ARRAYDESCRIPTORS_CACHE_CAP = MELDA_DATA_CACHE_CAP in 1..3 (symbolic)"},
+        assumptions=["elements are JSON numbers (kernel) / objects with concrete ids (chains)"] + S2_ASSUME,
         note="utils::make_diff_patch/apply_diff_patch + yavomrs myers implementation executed from MIR",
     )
 
@@ -113,6 +118,20 @@ S2_ASSUME = ["single client thread; rayon par_iter bodies run sequentially in on
              "SHA-256 digests of symbolic content are abstracted to 16 (instead of 64) symbolic hex characters"]
 
 
+def c04(tier):
+    combos = [(0, 4, 1, 0), (0, 4, 1, 1), (1, 0, 1, 1), (2, 0, 2, 0), (2, 0, 2, 1)]
+    if tier != "quick":
+        combos += [(0, 7, 1, 1), (0, 4, 2, 0), (1, 0, 2, 0), (1, 0, 1, 0), (0, 12, 1, 0)]
+    jobs = [Job("h_c04::update_read", c, dict(S2), budget_s=3000, validate=30) for c in combos]
+    return dict(jobs=jobs,
+                bounds={"combos [variant, element orders, prior documents, commit after each prior document]": [list(c) for c in combos],
+                        "variant 0": "element order of items♭ x membership of a second flattened array (objects move between arrays)",
+                        "variant 1": "flattened object / '^'-prefixed string meta♭ and flattened string s♭ (symbolic printable char) appear, disappear, change kind",
+                        "variant 2": "flattened key more♭ changes kind: absent / array / empty array / number / string / object"},
+                assumptions=S2_ASSUME + ["documents are well formed in the sense of the property (unique string ids not starting with '^', no '#' key)"],
+                note="utils::flatten/unflatten + melda.rs update / update_object / delete_object / create_object / read / commit from MIR")
+
+
 def c07(tier):
     jobs = [Job("h_c07::resolve_object", (0,), dict(S2), budget_s=3000, validate=30),
             Job("h_c07::resolve_both", (), dict(S2), budget_s=3000, validate=30)]
@@ -140,4 +159,4 @@ def c10(tier):
                 note="melda.rs reload / fetch_raw_delta / load_raw_delta / check_delta, datastorage.rs try_load_pack / read_raw_value from MIR")
 
 
-PROPS = {"C07": c07, "C10": c10, "C08": c08, "C03": c03, "C06": c06, "C16": c16, "C19": c19, "C05": c05, "C15": c15}
+PROPS = {"C04": c04, "C07": c07, "C10": c10, "C08": c08, "C03": c03, "C06": c06, "C16": c16, "C19": c19, "C05": c05, "C15": c15}
